@@ -4,10 +4,13 @@
 (* input sets; TLC explores every pick order (= every hash-map iteration   *)
 (* order of the pending inputs).                                           *)
 (*                                                                         *)
-(*   Mode = "faithful"  the parser as the pinned implementation works      *)
+(*   Mode = "faithful"  the parser as the implementation works now         *)
 (*                      (EXPECTED to violate Confluent / MatchesDeclarative*)
-(*                      / ResultIsMeaning: the design-level counterexample)*)
-(*   Mode = "intended"  the documented contract (all three hold)           *)
+(*                      : the design-level counterexamples; what it returns*)
+(*                      on success is right: ResultIsMeaning holds)        *)
+(*   Mode = "pinned"    the pinned snapshot, before fix 59a830b (silent    *)
+(*                      overwrite: also violates ResultIsMeaning)          *)
+(*   Mode = "intended"  the documented contract (all properties hold)      *)
 (*                                                                         *)
 (* With EmitScn = TRUE every scenario is printed once as                   *)
 (*   SCN {form, ins, main, expect, reach, shapes}                          *)
@@ -15,7 +18,7 @@
 (***************************************************************************)
 EXTENDS MultiParse, Json
 
-CONSTANTS Mode,      \* "faithful" | "intended"
+CONSTANTS Mode,      \* "faithful" | "pinned" | "intended"
           K,         \* parse_list: input sets of 1..K definitions of the universe
           KW,        \* parse_str_with_list: main + list of 0..KW-1 definitions
           KB,        \* parse_str_with_list with a main schema that is no definition: lists of 1..KB definitions
@@ -117,18 +120,19 @@ VARIABLES sid,        \* the scenario's identifier (constant along a behaviour)
           resolving,  \* records being parsed (empty between picks unless failed)
           parsed,     \* name -> schema
           out,        \* intended mode: result per input
+          defined,    \* full names defined so far by this parse
           status,     \* "start" | "running" | "ok" | "err" | "panic"
           picks,      \* history: the order in which inputs were drained at top level
           events,     \* history: parser events (what the proposed hook would report)
           outcome     \* the terminal outcome
-vars == <<sid, pending, resolving, parsed, out, status, picks, events, outcome>>
+vars == <<sid, pending, resolving, parsed, out, defined, status, picks, events, outcome>>
 
 scn == ScnOf(sid)
 
 NoOutcome == [status |-> "none", res |-> <<>>, main |-> NoTerm]
 
 Cur == [mode |-> Mode, ins |-> scn.ins, form |-> scn.form, main |-> scn.main,
-        pending |-> pending, resolving |-> resolving, parsed |-> parsed, out |-> out,
+        pending |-> pending, resolving |-> resolving, parsed |-> parsed, out |-> out, defined |-> defined,
         err |-> "", trace |-> TRUE, log |-> <<>>]
 
 ScnLine(s) ==
@@ -137,7 +141,7 @@ ScnLine(s) ==
    shapes |-> [nestedref |-> NestedRefShape(s), nesteddup |-> NestedDupShape(s), wrapper |-> WrapperShape(s)]]
 
 Init == /\ sid \in ScenarioIds
-        /\ pending = {} /\ resolving = {} /\ parsed = {} /\ out = {}
+        /\ pending = {} /\ resolving = {} /\ parsed = {} /\ out = {} /\ defined = {}
         /\ status = "start" /\ picks = <<>> /\ events = <<>> /\ outcome = NoOutcome
 
 (* the inputs are filed under their names; a name collision is rejected before anything is parsed *)
@@ -146,13 +150,14 @@ Start == /\ status = "start"
          /\ IF PrecheckOk(scn, Mode)
             THEN /\ status' = "running" /\ pending' = 1..Len(scn.ins) /\ outcome' = outcome
             ELSE /\ status' = "err" /\ pending' = pending /\ outcome' = OutcomeErr
-         /\ UNCHANGED <<sid, resolving, parsed, out, picks, events>>
+         /\ UNCHANGED <<sid, resolving, parsed, out, defined, picks, events>>
 
 (* drain ONE pending input -- any of them: the pending map is a hash map *)
 PickNext(i) ==
   /\ status = "running" /\ i \in pending
   /\ LET r == PickStep(TLCEval(Cur), i) IN
        /\ pending' = r.pending /\ resolving' = r.resolving /\ parsed' = r.parsed /\ out' = r.out
+       /\ defined' = r.defined
        /\ events' = events \o r.log
        /\ IF r.err # "" THEN status' = "err" /\ outcome' = OutcomeErr
           ELSE status' = "running" /\ outcome' = outcome
@@ -163,7 +168,7 @@ PickNext(i) ==
 Finish ==
   /\ status = "running" /\ pending = {}
   /\ LET o == Complete(TLCEval(Cur), scn) IN status' = o.status /\ outcome' = o
-  /\ UNCHANGED <<sid, pending, resolving, parsed, out, picks, events>>
+  /\ UNCHANGED <<sid, pending, resolving, parsed, out, defined, picks, events>>
 
 Next == Start \/ (\E i \in pending : PickNext(i)) \/ Finish
 Spec == Init /\ [][Next]_vars
@@ -199,11 +204,13 @@ ASSUME ListId(<<14, 15>>) \in ScenarioIds
 ASSUME Cardinality(AllOutcomes(Showcase, "faithful")) = 2
 ASSUME Cardinality(AllOutcomes(Showcase, "intended")) = 1
 ASSUME Expect(Showcase) = "ok" /\ NestedRefShape(Showcase) /\ ~NestedDupShape(Showcase)
-(* DESIGN section 3 C20 "F": [A{b: fixed N(1)} , fixed N(2)] returns N(1) or N(2) *)
+(* DESIGN section 3 C20 "F": [A{f1: fixed N(1), ..}, fixed N(2)] returned N(1) or N(2) in the pinned  *)
+(* snapshot; since fix 59a830b the second definition is a name collision                              *)
 Overwrite == ListScn(<<14, 18>>)
 ASSUME Expect(Overwrite) = "err" /\ NestedDupShape(Overwrite)
-ASSUME \A o \in AllOutcomes(Overwrite, "faithful") : o.status = "ok"
-ASSUME Cardinality(AllOutcomes(Overwrite, "faithful")) = 2
+ASSUME \A o \in AllOutcomes(Overwrite, "pinned") : o.status = "ok"
+ASSUME Cardinality(AllOutcomes(Overwrite, "pinned")) = 2
+ASSUME AllOutcomes(Overwrite, "faithful") = {OutcomeErr}
 ASSUME AllOutcomes(Overwrite, "intended") = {OutcomeErr}
 ASSUME AllOutcomes(ListScn(<<24>>), "faithful") = {OutcomePanic} /\ WrapperShape(ListScn(<<24>>))
 =============================================================================
